@@ -37,7 +37,7 @@ func init() {
 			"collections whose items have different types are only navigated by names valid on every item type",
 		},
 		Run:    runC02,
-		Checks: map[string]func(*core.Env, []json.RawMessage){"resource": replayC02, "mixed": replayC02Mixed, "codes": replayC02Codes},
+		Checks: map[string]func(*core.Env, []json.RawMessage){"resource": replayC02, "mixed": replayC02Mixed, "codes": replayC02Codes, "refs": replayC02Refs},
 		Threshold: func(m *core.Merged) []string {
 			var r []string
 			if m.Cover["types"] < 146 {
@@ -65,6 +65,13 @@ func runC02(env *core.Env) {
 			}
 			rich := k%2 == 1
 			c02Resource(env, string(md.Name()), env.Seed*1000+uint64(k), rich)
+		}
+	}
+	// a typed reference to every resource type
+	for _, md := range types {
+		n++
+		if env.Mine(n) {
+			c02Refs(env, string(md.Name()))
 		}
 	}
 	// every value of every bound code element, in one process, in both orders
@@ -246,6 +253,26 @@ func c02Codes(env *core.Env, reverse bool) {
 			env.Distinct("code|" + string(md.FullName()) + "|" + string(ev.Name()))
 		}
 	}
+}
+
+// c02Refs: a typed (strong) reference to every one of the 146 resource types, with and without a version,
+// walked like any other resource (the `reference` step must read back the jsonformat string).
+func c02Refs(env *core.Env, tn string) {
+	defer env.In("refs", tn)()
+	b := &basicpb.Basic{Id: &dtpb.Id{Value: "r"}, Subject: strongRef(tn, "id-1", ""), Author: strongRef(tn, "A.b-2", "7")}
+	if b.Subject == nil {
+		env.Skip("no-typed-reference-member")
+		return
+	}
+	b.Subject.Display = &dtpb.String{Value: "shown"}
+	env.Cover("typed-reference-target")
+	c02Walk(env, "Basic", b, 0, 400)
+}
+
+func replayC02Refs(env *core.Env, a []json.RawMessage) {
+	var tn string
+	json.Unmarshal(a[0], &tn)
+	c02Refs(env, tn)
 }
 
 func replayC02Codes(env *core.Env, a []json.RawMessage) {
